@@ -12,6 +12,8 @@
 //        9 = cache node: make every redis command fail (val = 1) / work again (val = 0)
 //        10 = cache node: overwrite the stored entry with bytes that do not unmarshal (the next Take drops it
 //             and reloads; logged as "del")
+//        11 = SingleFlight: "forget the key" - calls a method Forget(key) of the SingleFlight instance IF it has one
+//             (x/sync's singleflight has; go-zero's has not: then the op does nothing); logged like a "del"
 //   key:  key%1000 is the key string, key/1000 the INSTANCE (0 or 1): every primitive / cache exists
 //         twice, the two instances must not share anything.
 //         key%1000 == 0 is the EMPTY key string.
@@ -209,8 +211,11 @@ func errCode(err error) int64 {
 // destination) the wrapper has no "pre" gate but a "post" gate: a caller that joined somebody else's
 // call (fresh == false) parks right where DoEx hands it the shared result, and goes on only when the
 // schedule says so - after the leading caller has returned and overwritten its own destination.
+//
+// The wrapped SingleFlight is EMBEDDED: whatever methods the interface has besides Do and DoEx (today: none) are
+// passed through, so an interface that grows (a Forget method, say) does not stop the executor from building.
 type gatedSF struct {
-	inner syncx.SingleFlight
+	syncx.SingleFlight
 	ctl   *sched.Ctl
 	noPre bool
 	post  bool
@@ -230,12 +235,12 @@ func (g *gatedSF) pre() {
 
 func (g *gatedSF) Do(key string, fn func() (any, error)) (any, error) {
 	g.pre()
-	return g.inner.Do(key, fn)
+	return g.SingleFlight.Do(key, fn)
 }
 
 func (g *gatedSF) DoEx(key string, fn func() (any, error)) (any, bool, error) {
 	g.pre()
-	val, fresh, err := g.inner.DoEx(key, fn)
+	val, fresh, err := g.SingleFlight.DoEx(key, fn)
 	if g.post && !fresh {
 		if a := g.ctl.Actor(); a >= 0 {
 			g.ctl.Gate(a, "post", g.ctl.CurOp(a))
@@ -367,7 +372,7 @@ func runCase(c Case) (out Out) {
 		n := int(key/1000) % 2
 		if insts[n] == nil {
 			in := &instance{sf: syncx.NewSingleFlight(), lc: syncx.NewLockedCalls(), rm: syncx.NewResourceManager()}
-			in.rm.VerifWrapFlight(func(inner syncx.SingleFlight) syncx.SingleFlight { return &gatedSF{inner: inner, ctl: ctl, noGate: noGate} })
+			in.rm.VerifWrapFlight(func(inner syncx.SingleFlight) syncx.SingleFlight { return &gatedSF{SingleFlight: inner, ctl: ctl, noGate: noGate} })
 			insts[n] = in
 		}
 		return insts[n]
@@ -384,7 +389,7 @@ func runCase(c Case) (out Out) {
 					in.cc, _ = collection.NewCache(time.Hour)
 				}
 				// gate between the cache miss in front of the barrier and barrier.Do
-				in.cc.VerifC07WrapBarrier(func(inner syncx.SingleFlight) syncx.SingleFlight { return &gatedSF{inner: inner, ctl: ctl} })
+				in.cc.VerifC07WrapBarrier(func(inner syncx.SingleFlight) syncx.SingleFlight { return &gatedSF{SingleFlight: inner, ctl: ctl} })
 			}
 			if (op[0] == 5 || op[0] == 7 || op[0] == 8 || op[0] == 9 || op[0] == 10) && in.node == nil {
 				var err error
@@ -396,7 +401,7 @@ func runCase(c Case) (out Out) {
 				defer in.mini.Close()
 				rds := redis.New(in.mini.Addr(), redis.WithHook(storeHook{ctl: ctl, arm: &armed}))
 				rds.Ping() // dial now: the first command of an actor must not wait for a TCP handshake
-				barrier := &gatedSF{inner: syncx.NewSingleFlight(), ctl: ctl, noPre: true, post: true}
+				barrier := &gatedSF{SingleFlight: syncx.NewSingleFlight(), ctl: ctl, noPre: true, post: true}
 				if op[1] >= 1000 {
 					in.node = cache.NewNode(rds, barrier, cache.NewStat("verif2"), errNotFound,
 						cache.WithExpiry(time.Minute), cache.WithNotFoundExpiry(time.Minute))
@@ -586,6 +591,12 @@ func runCase(c Case) (out Out) {
 				in.mini.Del(ks)
 			} else {
 				_ = in.node.Del(ks)
+			}
+			ctl.Log(tid, "del", i, key)
+			ctl.Log(tid, "ret", i, -1, 0, -2)
+		case 11:
+			if f, ok := in.sf.(interface{ Forget(string) }); ok {
+				f.Forget(ks)
 			}
 			ctl.Log(tid, "del", i, key)
 			ctl.Log(tid, "ret", i, -1, 0, -2)
